@@ -775,7 +775,8 @@ SEQOF_COMPONENTS_W = Contract(
     qual='SequenceOfEncoder._encodeComponents', properties=['C18', 'C01'],
     params=dict(self=PObj('SequenceOfEncoder'), elements=PIntTuple(), value=PDerived(_collection_w), asn1Spec=PConst(None),
                 encodeFun=PConst(FnV(_encode_element_w, 'encodeFun')), options=POptions(wrapType=PConst(WRAP_TYPE))),
-    globals={'all_of': FnV(lambda ex, vals, upto: SeqV(E_ALL_W(vals.z if isinstance(vals, SeqV) else vals.cols[0], toint(upto)), 'bytes'), 'all_of'),
+    globals={'_isValueOf': FnV(lambda ex, t, component: E_SAME(toint(component.fields['__id__'])), '_isValueOf'),
+             'all_of': FnV(lambda ex, vals, upto: SeqV(E_ALL_W(vals.z if isinstance(vals, SeqV) else vals.cols[0], toint(upto)), 'bytes'), 'all_of'),
              'unfold': FnV(lambda ex, vals, i: (lambda z, k: _z3.Implies(k >= 0, E_ALL_W(z, k + 1) == _z3.Concat(
                  E_ALL_W(z, k), _z3.If(E_SAME(z[k]), E_CHUNK(z[k]), E_WRAP(E_CHUNK(z[k]))))))(
                  vals.z if isinstance(vals, SeqV) else vals.cols[0], toint(i)), 'unfold')},
@@ -787,9 +788,25 @@ SEQOF_COMPONENTS_W = Contract(
     ensures=[('each-element-wrapped-iff-it-is-not-of-the-wrap-type',
               'result.joined == all_of(elements, len(elements)) and result.count == len(elements)')],
     calls={'encodeFun': _encode_element_w},
-    note='wrapType.isSameTypeWith and the two uses of encodeFun are assumed models')
+    note='_isValueOf (contract below) and the two uses of encodeFun are call reductions / assumed models')
 SEQOF_COMPONENTS_W.empty_list = _chunk_list
 CONTRACTS = CONTRACTS + [SEQOF_COMPONENTS_W]
+
+# "is this component a value of the (ANY) wrap type itself": same kind of type *and* same tags/constraints -- a value of another
+# type that merely carries the field's tag (an inner OCTET STRING tagged like the field) is not
+IS_VALUE_OF = Contract(
+    id='ber.encoder::_isValueOf', file=F, qual='_isValueOf', properties=['C18', 'C01'],
+    params=dict(asn1Type=PConst(Obj('Any', {'typeId': _z3.Int('wrapType.typeId')},
+                                    {'isSameTypeWith': lambda ex, self, c: _z3.Bool('sameTagsAndConstraints')}, name='asn1Type')),
+                component=PDerived(lambda ex, env: Obj('Asn1Value', {'typeId': _z3.Int('component.typeId')}, name='component')
+                                   if ex.choose(_z3.Bool('component.isAsn1Object'), 'asn1-object') else
+                                   SeqV(_z3.Const('component.octets', _S), 'bytes'))),
+    globals={'isObj': _z3.Bool('component.isAsn1Object'), 'same': _z3.Bool('sameTagsAndConstraints'),
+             'tw': _z3.Int('wrapType.typeId'), 'tc': _z3.Int('component.typeId')},
+    ensures=[('same-kind-and-same-tags', 'isObj ==> (result == (tw == tc and same))'),
+             ('plain-octets-are-not', '(not isObj) ==> (result is False or result == False)')],
+    note='typeId identifies the kind of type (ANY, OCTET STRING, ...); isSameTypeWith compares tags and constraints')
+CONTRACTS = CONTRACTS + [IS_VALUE_OF]
 
 
 # ---- REAL, binary form in base 2 (X.690 8.5.7): first octet, two's complement exponent, unsigned mantissa ------------------------
